@@ -20,7 +20,12 @@ func init() {
 				return "", err
 			}
 			out += fmt.Sprintf("def %sName : String := %s\n", lower(e.typ), LeanString(name))
-			out += fmt.Sprintf("def %sIndex : List Nat := %s\n\n", lower(e.typ), LeanNatList(idx))
+			out += fmt.Sprintf("def %sIndex : List Nat := %s\n", lower(e.typ), LeanNatList(idx))
+			bs := make([]int64, len(name))
+			for i := 0; i < len(name); i++ {
+				bs[i] = int64(name[i])
+			}
+			out += fmt.Sprintf("def %sNameBytes : List Nat := %s\n\n", lower(e.typ), LeanNatList(bs))
 		}
 		return out + Footer("Enums"), nil
 	}})
